@@ -16,7 +16,7 @@ ASSUMPTIONS = ["boundary wrappers see every call pybads makes to the user's targ
                "exact comparison is legitimate because pybads clamps/drops candidates; a 1-ulp excess is a violation"]
 
 GEOMW = {"lin": 1, "tight": 2, "log": 2.5, "logedge": 1.5, "mixedlog": 2, "unb": 1.5, "mixedunb": 1, "wide": 1, "offcentre": 1.5,
-         "logdecade": 3.5, "nicelin": 2.5}
+         "logdecade": 3.5, "nicelin": 2.5, "offset": 1.5}
 
 
 def cases(tier, seed):
@@ -29,6 +29,8 @@ def cases(tier, seed):
         geom = str(rng.choice(g, p=w))
         where = str(rng.choice(["in", "onb", "out"], p=[0.3, 0.3, 0.4]))
         x0mode = str(rng.choice(gen.X0MODES, p=[0.15, 0.2, 0.05, 0.2, 0.15, 0.15, 0.1]))
+        if rng.random() < 0.15:
+            x0mode = str(rng.choice(gen.X0MODES_EXTRA))
         cons = str(rng.choice(["none", "halfspace", "ball", "corner"], p=[0.6, 0.15, 0.15, 0.1]))
         if cons != "none" and x0mode in ("none",):
             x0mode = "in"
@@ -41,6 +43,8 @@ def cases(tier, seed):
             opts["force_poll_mesh"] = True
         if rng.random() < 0.2:
             opts["search_n_try"] = int(rng.choice([0, 1]))
+        if rng.random() < 0.2:
+            opts["search_grid_number"] = int(rng.choice([4, 6, 8]))  # coarser search mesh: gridisation moves points further
         spec = gen.make_spec(rng, D=int(rng.choice([1, 2, 3, 4], p=[0.25, 0.4, 0.25, 0.1])), geom=geom, x0mode=x0mode, land=land,
                              where=where, mode=mode, cons=cons, options=opts, max_fun_evals=int(rng.choice([30, 50, 80, 100])))
         out.append({"spec": spec})
